@@ -285,9 +285,15 @@ func DecodeAlstSampleGroupEntry(name string, length uint32, sr bits.SliceReader)
 		entry.SampleOffset[i] = sr.ReadUint32()
 	}
 
+	if uint64(length) <= entry.Size() {
+		return entry, sr.AccError()
+	}
 	remaining := int(length-uint32(entry.Size())) / 4
 	if remaining <= 0 {
 		return entry, sr.AccError()
+	}
+	if remaining > sr.NrRemainingBytes()/4 {
+		return nil, fmt.Errorf("alst sample group entry: %d optional entries exceed the remaining %d bytes", remaining, sr.NrRemainingBytes())
 	}
 
 	// Optional
